@@ -223,6 +223,18 @@ func runC08(cfg runCfg) error {
 			}
 		}
 		c08One(run, c)
+		// the key at two depths, the shallower occurrence under the LONGER path text (seed C08-3: shortest by characters)
+		if r.chance(0.04) {
+			k := r.pick([]string{"k", "id", "c"})
+			long := r.pick([]string{"items", "list", "configuration"})
+			sm := map[string]interface{}{long: map[string]interface{}{k: r.genScalar()},
+				"a": map[string]interface{}{"b": map[string]interface{}{k: r.genScalar()}}}
+			if r.chance(0.5) {
+				sm["a"].(map[string]interface{})["b"] = []interface{}{map[string]interface{}{k: "x"}, "y"}
+			}
+			c08One(run, kvCase{Op: "PathForKeyShortest", Map: sm, Key: k, Sep: ":"})
+			c08One(run, kvCase{Op: "PathsForKey", Map: sm, Key: k, Sep: ":"})
+		}
 		if r.chance(0.03) {
 			sm, stext, _ := r.sepScenario()
 			for _, sp := range []string{"|", ":", "|"} {
@@ -573,6 +585,33 @@ func runC10(cfg runCfg) error {
 			c.SubKeys = r.genSubKeys(m, ":", false)
 		}
 		c10One(run, c)
+		// member-wise replacement: the path ends in the new value's key, the value there is a list, the sub-keys hold for
+		// several members but not for the parent (seed C10-3: the count must be the number of members replaced)
+		if r.chance(0.04) {
+			k, tag := r.pick([]string{"item", "list", "k"}), r.pick([]string{"tag", "b", "id"})
+			var mem []interface{}
+			for j, nm := 0, 2+r.Intn(4); j < nm; j++ {
+				mem = append(mem, map[string]interface{}{tag: r.pick([]string{"a", "a", "b"}), "n": float64(j)})
+			}
+			if r.chance(0.3) {
+				mem = append(mem, "scalar")
+			}
+			sm := map[string]interface{}{"doc": map[string]interface{}{k: mem, "x": r.genScalar()}}
+			c10One(run, kvCase{Op: "UpdateValuesForPath", Map: sm, Path: "doc." + k, Sep: ":",
+				NewVal: map[string]interface{}{k: r.pick([]string{"gone", "new"})}, SubKeys: []string{tag + ":a"}})
+		}
+		// a list directly inside a list below a wildcard step (JSON shape; seed C10-4: update and query must address the same values)
+		if r.chance(0.05) {
+			g2 := genCfg{maxDepth: 4, maxFan: 3, nestedLists: true, emptyLists: true}
+			m2 := r.genMap(g2, 0)
+			k2 := r.pick([]string{"cell", "k", "a"})
+			m2["grid"] = map[string]interface{}{"rows": []interface{}{
+				[]interface{}{map[string]interface{}{k2: "a"}, map[string]interface{}{k2: "b"}},
+				map[string]interface{}{k2: map[string]interface{}{k2: "deep"}},
+				[]interface{}{map[string]interface{}{"w": float64(4)}}}}
+			p2 := r.pick([]string{"grid.rows.*." + k2, "grid.*.*." + k2, "*.rows.*." + k2, "grid.rows.*"})
+			c10One(run, kvCase{Op: "UpdateValuesForPath", Map: m2, Path: p2, Sep: ":", NewVal: k2 + ":X"})
+		}
 		if r.chance(0.03) {
 			sm, stext, who := r.sepScenario()
 			for _, sp := range []string{"|", ":", "|"} {
